@@ -36,26 +36,47 @@ class PlainOp(scipy.sparse.linalg.LinearOperator):
         return PlainOp(np.ascontiguousarray(self.M.conj().T))
 
 
-def mk(spec):
+# Every array handed to the implementation is registered with a bitwise snapshot; no
+# operation (construction or application) may alter its operands.
+REG = []
+
+
+def _bits(obj):
+    if scipy.sparse.issparse(obj):
+        return (obj.data.tobytes(), obj.indices.tobytes(), obj.indptr.tobytes(), obj.shape, str(obj.dtype))
+    return (obj.tobytes(), obj.shape, str(obj.dtype))
+
+
+def register(label, obj):
+    REG.append((label, obj, _bits(obj)))
+    return obj
+
+
+def mutated():
+    """labels of the registered operands whose bits differ from their snapshot"""
+    return [label for (label, obj, snap) in REG if _bits(obj) != snap]
+
+
+def mk(spec, label='op'):
     """operand from {'kind','r','c','data','dtype'}"""
     if spec is None:
         return None
     M = np.array(spec['data'], dtype=spec.get('dtype', 'f8')).reshape(spec['r'], spec['c'])
     k = spec['kind']
     if k == 'dense':
-        return M
+        return register(label, M)
     if k == 'denseF':
-        return np.asfortranarray(M)
+        return register(label, np.asfortranarray(M))
+    if k == 'denseT':       # an F-contiguous transposed view of a C-ordered array (M.T idiom)
+        return register(label, np.array(M.T, order='C').T)
     if k == 'csr':
-        return scipy.sparse.csr_matrix(M)
+        return register(label, scipy.sparse.csr_matrix(M))
     if k == 'csc':
-        return scipy.sparse.csc_matrix(M)
-    if k == 'coo':
-        return scipy.sparse.coo_matrix(M)
+        return register(label, scipy.sparse.csc_matrix(M))
     if k == 'aslinop':
-        return scipy.sparse.linalg.aslinearoperator(M)
+        return scipy.sparse.linalg.aslinearoperator(register(label, M))
     if k == 'linop':
-        return PlainOp(M)
+        return PlainOp(register(label, M))
     raise ValueError(k)
 
 
@@ -63,7 +84,7 @@ def mkx(spec):
     X = np.array(spec['data'], dtype=spec.get('dtype', 'f8')).reshape(spec['shape'])
     if spec.get('order') == 'F':
         X = np.asfortranarray(X)
-    return X
+    return register('x', X)
 
 
 def out_arr(Y):
@@ -118,6 +139,7 @@ def run_case(c, O, K, T, U, S):
         d = np.array(c['d'], dtype=c.get('dtype', 'f8'))
         if c.get('dshape'):
             d = d.reshape(c['dshape'])
+        register('d', d)
         op = variant(O.DiagonalOperator(d), c['variant'])
         return out_arr(apply(op, mkx(c['x']), c.get('how')))
     if fam == 'identity':
@@ -133,6 +155,7 @@ def run_case(c, O, K, T, U, S):
         a = c['A']
         A = scipy.sparse.csr_matrix((np.array(a['data'], dtype='f8'), np.array(a['indices'], dtype=np.int32),
                                      np.array(a['indptr'], dtype=np.int32)), shape=(a['r'], a['c']))
+        register('A', A)
         if fam == 'rowslice':
             op = U.CSRRowSlice(A, (c['r0'], c['r1']))
         else:
@@ -141,17 +164,39 @@ def run_case(c, O, K, T, U, S):
         how = c.get('how')
         Y = op * x if how == 'mul' else op.dot(x)
         return out_arr(Y)
-    # ---- solver factories: floating point, the harness checks residuals exactly
+    # ---- solver factories: floating point, the harness checks residuals exactly.
+    # 'mats' are the distinct matrix OBJECTS; the factories refer to them by index, so the same
+    # array may be handed over several times.  Operands are checked bitwise after construction
+    # and after every application ('mutated').
     if fam in ('solver', 'kronsolver', 'fastdiag'):
+        mats = [mk(m, 'mat%d' % i) for i, m in enumerate(c['mats'])]
+        x = mkx(c['x'])
+        outs, mut = [], []
+
+        def app(op, stage):
+            Y = np.asarray(apply(op, x, c.get('how')))
+            outs.append({'stage': stage, 'shape': [int(s) for s in Y.shape], 'hex': [float(v).hex() for v in Y.ravel()],
+                         'opshape': [int(s) for s in op.shape]})
+            mut.extend('%s after %s' % (m, stage) for m in mutated())
+
         if fam == 'solver':
-            op = O.make_solver(mk(c['B']), symmetric=c.get('symmetric', False), spd=c.get('spd', False))
-        elif fam == 'kronsolver':
-            op = O.make_kronecker_solver(*[mk(b) for b in c['Bs']])
+            ops = []
+            for k, flags in enumerate(c['builds']):
+                ops.append(O.make_solver(mats[c['B']], **flags))
+                mut.extend('%s after construction %d' % (m, k) for m in mutated())
+                if k == 0:
+                    app(ops[0], 'solver 0 applied before the other constructions')
+            for k, op in enumerate(ops):
+                app(op, 'solver %d applied after all constructions' % k)
         else:
-            op = S.fastdiag_solver([(mk(k), mk(m)) for (k, m) in c['KM']])
-        Y = np.asarray(apply(op, mkx(c['x']), c.get('how')))
-        return {'status': 'Ok', 'shape': [int(s) for s in Y.shape], 'hex': [float(v).hex() for v in Y.ravel()],
-                'opshape': [int(s) for s in op.shape]}
+            if fam == 'kronsolver':
+                op = O.make_kronecker_solver(*[mats[i] for i in c['idx']])
+            else:
+                op = S.fastdiag_solver([(mats[k], mats[m]) for (k, m) in c['KM']])
+            mut.extend('%s after construction' % m for m in mutated())
+            app(op, 'first application')
+            app(op, 'second application')
+        return {'status': 'Ok', 'outs': outs, 'mutated': sorted(set(mut))}
     raise ValueError('unknown family ' + fam)
 
 
@@ -164,8 +209,11 @@ def main():
     payload = json.load(sys.stdin)
     out = []
     for c in payload['cases']:
+        del REG[:]
         try:
             res = run_case(c, O, K, T, U, S)
+            if 'mutated' not in res:
+                res['mutated'] = mutated()
         except Exception as e:  # noqa
             res = {'status': errclass(e), 'msg': str(e)[:200]}
         out.append(res)
